@@ -348,11 +348,12 @@ func (m *FloodSub) handleValidMessage(
 ) {
 	channelID := pktInner.GetChannel()
 	msgId := pkt.ComputeMessageID()
-	if _, ok := m.seenMessages.Get(msgId); ok {
+	// atomic test-and-set: two copies of the message arriving concurrently from
+	// different peers must not both pass the check.
+	if err := m.seenMessages.Add(msgId, pkt, 0); err != nil {
 		return
 	}
 	verifGate("floodsub.seen", m, prevHopPeer, pkt)
-	m.seenMessages.Set(msgId, pkt, 0)
 
 	pid, err := peer.IDB58Decode(pkt.GetFromPeerId())
 	if err != nil {
